@@ -33,6 +33,7 @@ type HarnessSpec struct {
 	Thorough map[string]int `json:"thorough"`
 	Covers   []string       `json:"covers"`
 	Note     string         `json:"note"`
+	Solver   string         `json:"solver"`
 }
 
 type Spec struct {
@@ -287,6 +288,7 @@ func cmdCheck(args []string) int {
 	eng := sym.NewEngine(prog, cfg)
 	eng.WantCoverWitness = true
 	eng.Bounds = map[string]map[string]int{}
+	eng.SolverFor = map[string]string{}
 
 	// known findings
 	var known KnownFile
@@ -325,6 +327,9 @@ func cmdCheck(args []string) int {
 			b = h.Thorough
 		}
 		eng.Bounds[h.Entry] = b
+		if h.Solver != "" {
+			eng.SolverFor[h.Entry] = h.Solver
+		}
 	}
 	if len(entries) == 0 {
 		return fail("no harness selected")
